@@ -31,6 +31,7 @@ fn key_of(sc: &Scenario, v: &Violation) -> String {
 
 pub fn report_to_result(sc: &Scenario, rep: RunReport, restarted_only: bool) -> OneResult {
     let mut r = OneResult::default();
+    r.xdigest = Some(rep.results_digest);
     if let Some(_w) = &rep.skipped {
         r.skipped = true;
         r.add("runs_skipped_unbuildable", 1);
@@ -134,6 +135,14 @@ impl Property for ScenarioProp {
             (Flavor::C17, true) => 600_000,
             (Flavor::C18, false) => 16_000,
             (Flavor::C18, true) => 400_000,
+        }
+    }
+    fn xproc_runs(&self, thorough: bool) -> u64 {
+        match (self.flavor, thorough) {
+            (Flavor::C17, false) => 3_000,
+            (Flavor::C17, true) => 60_000,
+            (Flavor::C18, false) => 2_000,
+            (Flavor::C18, true) => 40_000,
         }
     }
     fn run_one(&self, seed: u64, index: u64, thorough: bool) -> OneResult {
